@@ -80,8 +80,6 @@ theorem sameShape_refl (A : Set (Nat × Nat)) : SameShape A A := by
   rw [sameShape_iff]
   refine ⟨false, false, false, 0, ?_⟩
   congr 1
-  funext p
-  simp [affZ, latticeSym]
 
 theorem sameShape_symm {A B : Set (Nat × Nat)} (h : SameShape A B) : SameShape B A := by
   rw [sameShape_iff] at h ⊢
